@@ -13,7 +13,8 @@ def handlers : List (List Sexp → Option Sexp) :=
     Driver.actionGateHandle,
     Driver.threadsHandle,
     Driver.regexHandle,
-    Driver.prHandle ]
+    Driver.prHandle,
+    Driver.settingsHandle ]
 
 def dispatch (line : String) : String :=
   match Sexp.parseAll line with
